@@ -717,7 +717,7 @@ emit_value_determination_code(arg_t *arg, asn1p_expr_type_e etype, asn1cnst_rang
 		}
 		break;
 	case ASN_BASIC_BOOLEAN:
-		OUT("value = (*(const long *)sptr) ? 1 : 0;\n");
+		OUT("value = (*(const BOOLEAN_t *)sptr) ? 1 : 0;\n");
 		break;
 	default:
 		WARNING("%s:%d: Value cannot be determined "
